@@ -195,3 +195,18 @@ Lemma grants_example :
        EvGrant KSU 104; EvOpen 2 1; EvCID 1; EvRetireCID; EvCID 1])
   = Some [9291456; 9291456; 104; 104; 0].
 Proof. reflexivity. Qed.
+
+(** The histories the simulated connections (simlimits) play, by shape, for every parrot under the
+    default Config: many fresh streams sharing initial_max_data, the advertised stream counts, the
+    counts after two completed streams and the MAX_STREAMS they earn: conformant and Fine. *)
+Definition sim_shaped (a : limits) : list (list ev) :=
+  [ [EvFresh 2 (Z.min (l_s_uni a) 20) (Z.min (l_sd_uni a) (l_max_data a / 40)); EvFresh 1 (Z.min (l_s_bidi a) 20) (Z.min (l_sd_br a) (l_max_data a / 40))];
+    [EvFresh 2 (l_s_uni a) 1]; [EvFresh 1 (l_s_bidi a) 1];
+    [EvFresh 2 2 4; EvGrant KSU (l_s_uni a + 2); EvFresh 2 (l_s_uni a) 1];
+    [EvFresh 1 2 4; EvGrant KSB (l_s_bidi a + 2); EvFresh 1 (l_s_bidi a) 1];
+    [EvDgramEnc true 1100]; [EvDgramEnc false 1100] ].
+
+Lemma sim_shaped_fine :
+  Forall (fun kv => let a := advertised kv in
+            Forall (fun h => play a (enforced_spec a default_config) h = Fine) (sim_shaped a)) advenf_all_specs.
+Proof. unfold advenf_all_specs. repeat constructor. Qed.
